@@ -370,6 +370,48 @@ def tables_for(rng, nconds, L, limit):
             yield [[rng.random() < bias for _ in range(L)] for _ in range(nconds)]
 
 
+# ------------------------------------------------------------------ directed family: loop control out of interrupt blocks
+BLOCKS = {   # name -> statements (conditions: 2 = the `if` inside blocks)
+    "A": [("TK", 2), ("TK", 3)],
+    "Bk": [("TK", 4), ("BR",)], "Bk0": [("BR",)],
+    "Co": [("TK", 5), ("CO",)], "Co0": [("CO",)],
+    "IfBC": [("TK", 6), ("IF", 2, [("BR",)], [("CO",)])], "IfCB": [("TK", 6), ("IF", 2, [("CO",)], [("BR",)])],
+    "BthenC": [("TK", 4), ("IF", 2, [("BR",)], []), ("TK", 5), ("CO",)],
+    "CthenB": [("TK", 4), ("IF", 2, [("CO",)], []), ("TK", 5), ("BR",)],
+    "Rt": [("TK", 6), ("RT",)], "Ab": [("TK", 6), ("AB",)],
+}
+
+
+def uses(block):
+    ks = {x[0] for x in cp.walk(block)}
+    return "BR" in ks, "CO" in ks
+
+
+def loop_control_family(rng, quick):
+    """`while True: take 1; try: <body> interrupt when c0: <h1> [interrupt when c1: <h2>]; take 7` then `take 8`:
+    body and handlers use break and continue (both referring to the loop around the statement) in every lexical
+    order -- different blocks, the same block, under an `if` -- with statements after the try-interrupt in the loop
+    body, so that a conclusion that is not acted upon is visible.  Returns (name, program, nconds)."""
+    bodies = ["A", "Bk", "Co", "IfBC", "IfCB"]
+    handlers = ["A", "Bk0", "Co0", "Bk", "Co", "IfBC", "IfCB", "BthenC", "CthenB", "Rt", "Ab"]
+    combos = []
+    for b in bodies:
+        for h1 in handlers:
+            combos.append((b, h1, None))
+    two = [(b, h1, h2) for b in bodies for h1 in handlers for h2 in handlers]
+    two = [cb for cb in two if any(uses(BLOCKS[x])[0] for x in cb) and any(uses(BLOCKS[x])[1] for x in cb)]
+    combos += (rng.sample(two, 60) if quick else two)
+    out = []
+    for b, h1, h2 in combos:
+        hs = [(0, BLOCKS[h1])] + ([(1, BLOCKS[h2])] if h2 else [])
+        body = [("WH", True, [("TK", 1), ("TRY", BLOCKS[b], hs), ("TK", 7)]), ("TK", 8), ("TK", 9)]
+        p = cp.empty_program(1)
+        p["behaviors"] = [dict(pre=[], inv=[], body=body)]
+        p["objects"] = [0]
+        out.append((f"loopctl-{b}-{h1}-{h2}", p, 3))
+    return out
+
+
 PROBES = [
     ("nested-break", "a break in a handler of a try-interrupt nested in a block of another one (outside any loop of that block) does not compile",
      [("WH", True, [("TK", 1), ("TRY", [("TRY", [("TK", 2), ("TK", 3)], [(0, [("BR",)])])], [(False, [("TK", 9)])])]), ("TK", 7), ("TK", 8)]),
@@ -410,8 +452,8 @@ def main():
             if not any(s[0] == "TRY" for b in p["behaviors"] for s in cp.walk(b["body"])):
                 continue
             q = quirks(p)
-            if q & {"a", "b", "e"}:
-                c.hist("generator:avoided-" + "".join(sorted(q & {"a", "b", "e"})))
+            if q & {"a", "e"}:      # compile errors (F20, F24); lost flags (F21, quirk b) are modelled: compile_try
+                c.hist("generator:avoided-" + "".join(sorted(q & {"a", "e"})))
                 continue
             made += 1
             src = cp.program_src(p)
@@ -420,6 +462,15 @@ def main():
             cap = 256 if (made % 6 == 0 or not quick) else ntab
             for ti, tab in enumerate(itertools.islice(tables_for(g.rng, n, 4 if (n * 4 <= 8 and cap == 256) else L, ntab), cap)):
                 cases.append((f"interrupt-{made}-{ti}", p, src, dict(tab=tab, perms=[], max_steps=6, timestep=1, raise_gv=(ti % 3 != 2)), None))
+        fam = loop_control_family(random.Random(rng.getrandbits(64)), quick)
+        trng = random.Random(rng.getrandbits(64))
+        for name, p, n in fam:
+            src = cp.program_src(p)
+            ntabs = 10 if quick else 40
+            for ti in range(ntabs):
+                bias = [0.25, 0.4, 0.6][ti % 3]
+                tab = [[trng.random() < bias for _ in range(7)] for _ in range(n)]
+                cases.append((f"{name}-{ti}", p, src, dict(tab=tab, perms=[], max_steps=7, timestep=1, raise_gv=True), None))
         for name, what, body in PROBES:
             p = cp.empty_program(1)
             p["behaviors"] = [dict(pre=[], inv=[], body=body)]
@@ -466,7 +517,8 @@ def main():
             c.hist("raise_gv:" + str(run.get("raise_gv", True)))
             for k in cp.kinds(p) & {"TRY", "AB", "BR", "CO", "RT", "DO", "DOF", "DOU", "WH"}:
                 c.hist("stmt:" + k)
-            ok = True if probe else c12.compare(c, name, p, src, run, obs, mod, None)   # probes are outside the modelled fragment
+            modelled = (not probe) or name in ("probe-break-ignored", "probe-nested-return", "probe-invariant-while-sub-runs")
+            ok = c12.compare(c, name, p, src, run, obs, mod, None) if modelled else True   # the other probes are outside the modelled fragment
             # oracle: the documented semantics
             rk = ref["kind"]
             if not run.get("raise_gv", True) and rk in ("PreconditionViolation", "InvariantViolation"):
